@@ -10,6 +10,9 @@ from vlib import HarnessError, canon
 def _reject_to_violation(v, rejects, keyfn):
     for r in rejects:
         e = r.get("event") or {}
+        if e.get("ev") == "Held":
+            v.violation("Held:" + ",".join(e.get("changed", []))[:70], r["why"], {"event": e, "why": r["why"], "line": r["line"]})
+            continue
         v.violation(keyfn(r, e), r["why"], {"event": e, "why": r["why"], "line": r["line"]})
 
 
@@ -376,8 +379,8 @@ def _per_run(sc, v, tier, seed, which):
             v.distinct.add(hash(canon(e["tree"])))
     v.extra["message_and_schema_kinds"] = len(names)
     v.samples = [{"name": json.loads(l)["name"], "bytes": json.loads(l)["bytes"][:64]} for l in lines[:3]]
-    mine = [r for r in rejects if r["why"].startswith(which + ":")]
-    other = [r for r in rejects if not r["why"].startswith(which + ":")]
+    mine = [r for r in rejects if r["why"].startswith(which + ":") or (r.get("event") or {}).get("ev") == "Held"]
+    other = [r for r in rejects if r not in mine]
     if other:
         vlib.log("note: %d reject(s) belong to the sibling property (%s)" % (len(other), "C04" if which == "C03" else "C03"))
     _reject_to_violation(v, mine, _per_key)
